@@ -11,9 +11,9 @@ namespace Influx.Props.C10
 open Influx.Fields Influx.Spec.C10 Influx.Fields.C10Steps
 
 /-- **C10** — for every history of writes (conflicting or not), measurement drops,
-    clean restarts, process kills, crashes at every point of the fields.idx rewrite
-    and crashes at every byte of an append to fields.idxl, the statement holds of
-    the model's observations. -/
+    clean restarts, process kills, crashes at every point of the fields.idx rewrite,
+    crashes at every byte of an append to fields.idxl and pairs of racing writers,
+    the statement holds of the model's observations. -/
 theorem C10_holdsOn (ops : List Op10) : holdsOn (trace10 {} ops) = true := by
   unfold holdsOn
   rw [firstFailure_trace {} {} pinv_init ⟨rfl, by intro m hm; cases hm⟩ ops]
